@@ -666,6 +666,10 @@ func genE2EConn(r *vRng, c e2eCfg, w *bufio.Writer, last bool) {
 	if tonMs > 200000 {
 		lastFFC = tonMs - 150000
 	}
+	if c.lepton == 1 && r.chance(25) {
+		// just switched on: the clock starts near zero and the power-on FFC (LastFFCTime 0) covers the first ten seconds
+		tonMs, lastFFC = uint32(r.pick(0, 111, 1000, 5000, 9500)), 0
+	}
 	for k := 0; k < nItems || (c.tickBad > 0 && frameNo < c.tickBad+2); k++ {
 		x := r.intn(100)
 		if cooling && winNow == 0 && k == 6+c.trig && validCount > 0 && len(stream) > 0 {
